@@ -3,6 +3,7 @@ package checks
 import (
 	"encoding/json"
 	"fmt"
+	"strings"
 	"os"
 	"path/filepath"
 
@@ -507,7 +508,7 @@ func buildC07(tier string) *core.Plan {
 		}}
 
 	return &core.Plan{
-		Spaces: []core.Space{inject, required, multiDoc, scalarSpace, yamlSpace},
+		Spaces: []core.Space{inject, required, multiDoc, scalarSpace, yamlSpace, c07AfterOutput()},
 		Rule: "every single injection of every marker (15 string markers as value/entry/key, 10 directive keys x 5 argument kinds with and without an extra key) into every base tree, " +
 			"each evaluated plain, under $output: false, re-selected by $output: true below a hidden parent, inside $encode: json and as a lower layer; every lower layer with $required at any positions x every subset overridden",
 		Assumptions: []string{"invariant: a successful output contains no key or string equal to $required or matching ^\\$\\p{Ll} (inputs contain no $$)",
@@ -547,4 +548,83 @@ func c07SetPath(m map[string]any, p []any, v any) {
 		}
 		m = next
 	}
+}
+
+// c07AfterOutput: a marker that arrives AFTER the parser has already produced output once. The
+// refusal must not depend on whether an earlier, successful Output call happened: a document that
+// takes a value from a hidden template by reference must be refused as soon as that value becomes
+// $required (or a stray directive), exactly as on a parser that was never asked for output before.
+func c07AfterOutput() core.Space {
+	refs := []struct {
+		name string
+		ref  any
+	}{
+		{"{$replace: {$match, $path}}", map[string]any{"$replace": map[string]any{"$match": map[string]any{"tid": 1}, "$path": "image"}}},
+		{"{$replace: [pattern, path]}", map[string]any{"$replace": []any{map[string]any{"tid": 1}, "image"}}},
+		{"{$merge: [pattern, path]} into a map", map[string]any{"$merge": []any{map[string]any{"tid": 1}, "opts"}, "y": 2}},
+		{"same-document $merge:path", nil},
+	}
+	markers := []any{"$required", "$bogus", map[string]any{"$nope": 1}, []any{"$required"}}
+	nm := int64(len(markers))
+	return core.Space{Name: "marker-arrives-after-an-earlier-output", N: int64(len(refs)) * nm, Chunk: 1,
+		Desc: func(i int64) any { return map[string]any{"reference": refs[i/nm].name, "marker": markers[i%nm]} },
+		Run: func(c *core.Ctx, i int64) {
+			rf, mk := refs[i/nm], markers[i%nm]
+			run := func(observeFirst bool) (string, error) {
+				p := newParser()
+				tmpl := map[string]any{"$output": false, "tid": 1, "image": "nginx", "opts": map[string]any{"image": "nginx"}}
+				user := map[string]any{"app": 1, "v": core.Clone(rf.ref)}
+				gain := map[string]any{"$match": map[string]any{"tid": 1}, "image": core.Clone(mk), "opts": map[string]any{"image": core.Clone(mk)}}
+				if rf.ref == nil {
+					// one document: hidden part and user of it side by side
+					tmpl = map[string]any{"tid": 1, "t": map[string]any{"$output": false, "image": "nginx"}, "v": "$merge:t.image"}
+					user = nil
+					gain = map[string]any{"$match": map[string]any{"tid": 1}, "t": map[string]any{"image": core.Clone(mk)}}
+				}
+				if err := p.MergeDocument(newDoc("t", tmpl)); err != nil {
+					return "", err
+				}
+				if user != nil {
+					if err := p.MergeDocument(newDoc("u", user)); err != nil {
+						return "", err
+					}
+				}
+				if observeFirst {
+					if _, err := p.Output("json"); err != nil {
+						return "", fmt.Errorf("first output: %w", err)
+					}
+					p.OutputDocuments()
+				}
+				if err := p.MergeDocument(newDoc("g", gain)); err != nil {
+					return "MERGE-REFUSED", nil
+				}
+				b, err := p.Output("json")
+				if err != nil {
+					return "REFUSED", nil
+				}
+				return "OUTPUT " + string(b), nil
+			}
+			c.Eval()
+			c.Trans(8)
+			fresh, err1 := run(false)
+			seen, err2 := run(true)
+			wit := fmt.Sprintf("after-output: %s gains %s", rf.name, core.Canon(mk))
+			if err1 != nil || err2 != nil {
+				c.Fail("harness", "scenario-does-not-load", wit, fmt.Sprint(err1, err2))
+				return
+			}
+			c.Validated()
+			c.Nontrivial()
+			if strings.HasPrefix(fresh, "OUTPUT") {
+				c.Outcome("MARKER-ACCEPTED")
+				c.Fail("marker-is-refused", "marker-hidden-or-accepted", wit, map[string]any{"never_observed": fresh})
+				return
+			}
+			if strings.HasPrefix(seen, "OUTPUT") {
+				c.Outcome("MARKER-ACCEPTED-AFTER-EARLIER-OUTPUT")
+				c.Fail("marker-is-refused", "accepted-because-of-an-earlier-output", wit, map[string]any{"never_observed": fresh, "after_an_earlier_output": seen})
+				return
+			}
+			c.Outcome("refused-either-way")
+		}}
 }
